@@ -360,6 +360,20 @@ impl<K: Eq + Copy, V: Copy> SmallMap<K, V> {
 /// Stand-in for `parking_lot::Mutex<T>` in sequential harnesses: a cell; locking a locked mutex
 /// (self-deadlock in the real code) fails the harness.
 static mut MUTEXES_HELD: u32 = 0;
+/// log of lock acquisitions since the last reset: (size_of the protected value, mutexes held before)
+static mut LOCK_LOG: [(usize, u32); 12] = [(0, 0); 12];
+static mut LOCK_LOG_N: usize = 0;
+pub(crate) fn lock_log_reset() {
+	unsafe {
+		LOCK_LOG_N = 0;
+	}
+}
+pub(crate) fn lock_log_len() -> usize {
+	unsafe { LOCK_LOG_N }
+}
+pub(crate) fn lock_log_entry(i: usize) -> (usize, u32) {
+	unsafe { LOCK_LOG[i] }
+}
 /// how many model mutexes are held right now (sequential harnesses observe lock structure with it)
 pub(crate) fn mutexes_held() -> u32 {
 	unsafe { MUTEXES_HELD }
@@ -384,6 +398,10 @@ impl<T> Mutex<T> {
 		assert!(!self.locked.get(), "verif model: mutex locked twice (self-deadlock)");
 		self.locked.set(true);
 		unsafe {
+			if LOCK_LOG_N < 12 {
+				LOCK_LOG[LOCK_LOG_N] = (core::mem::size_of::<T>(), MUTEXES_HELD);
+				LOCK_LOG_N += 1;
+			}
 			MUTEXES_HELD += 1;
 		}
 		MutexGuard { m: self }
@@ -441,11 +459,15 @@ pub(crate) mod oneshot {
 	use std::sync::Arc;
 
 	pub(crate) static mut COMPLETION_CLOCK: u32 = 0;
+	/// set by a harness to the pipeline's visible_seq_num: every completion then records the horizon
+	/// AT THE MOMENT it is sent (what a committer resumed by it would observe)
+	pub(crate) static mut HORIZON_PROBE: *const std::sync::atomic::AtomicU64 = core::ptr::null();
 
 	pub(crate) struct Slot {
 		pub sends: core::cell::Cell<u32>,
 		pub ok: core::cell::Cell<bool>,
 		pub order: core::cell::Cell<u32>,
+		pub horizon_at_send: core::cell::Cell<u64>,
 	}
 	unsafe impl Sync for Slot {}
 	unsafe impl Send for Slot {}
@@ -472,6 +494,7 @@ pub(crate) mod oneshot {
 			sends: core::cell::Cell::new(0),
 			ok: core::cell::Cell::new(false),
 			order: core::cell::Cell::new(0),
+			horizon_at_send: core::cell::Cell::new(u64::MAX),
 		});
 		(
 			Sender { slot: Arc::clone(&slot), _p: core::marker::PhantomData },
@@ -486,6 +509,9 @@ pub(crate) mod oneshot {
 			unsafe {
 				COMPLETION_CLOCK += 1;
 				self.slot.order.set(COMPLETION_CLOCK);
+				if !HORIZON_PROBE.is_null() {
+					self.slot.horizon_at_send.set((*HORIZON_PROBE).load(std::sync::atomic::Ordering::Acquire));
+				}
 			}
 			core::mem::forget(t);
 			core::mem::forget(self);
@@ -613,176 +639,5 @@ impl Semaphore {
 		}
 		self.permits.set(self.permits.get() - 1);
 		Ok(SemaphorePermit { s: self })
-	}
-}
-
-// ---------------------------------------------------------------------------------------------
-/// In-memory "file system" of ONE commit-log segment for the `wal_rw` slice (writer.rs + reader.rs
-/// compiled with BLOCK_SIZE = 32): the writer model appends into a static image, the reader model
-/// reads a prefix of it (`limit` = truncation point chosen by the harness).
-pub(crate) mod walfs {
-	use crate::wal::{Result, WritableFile};
-	use std::io::{self, Read, Seek, SeekFrom};
-
-	pub(crate) const CAP: usize = 160;
-	pub(crate) static mut IMAGE: [u8; CAP] = [0; CAP];
-	pub(crate) static mut LEN: usize = 0;
-
-	pub(crate) fn reset() {
-		unsafe {
-			LEN = 0;
-		}
-	}
-	pub(crate) fn len() -> usize {
-		unsafe { LEN }
-	}
-	pub(crate) fn byte(i: usize) -> u8 {
-		unsafe { IMAGE[i] }
-	}
-	pub(crate) fn set_byte(i: usize, v: u8) {
-		unsafe {
-			IMAGE[i] = v;
-		}
-	}
-
-	/// Cheap stand-in for CRC-32 in the `wal_rw` slice (same streaming interface as crc32fast::Hasher).
-	/// That the writer's CRC equals the one the reader recomputes is decided on the REAL crc32fast by
-	/// the writer-half harnesses (C12-O1); here the checksum only has to be a function of (type, data).
-	pub(crate) struct ModelHasher(u32);
-	impl ModelHasher {
-		pub(crate) fn new() -> Self {
-			ModelHasher(0x811c_9dc5)
-		}
-		pub(crate) fn update(&mut self, data: &[u8]) {
-			let mut i = 0;
-			while i < data.len() {
-				self.0 = (self.0 ^ data[i] as u32).wrapping_mul(0x0100_0193);
-				i += 1;
-			}
-		}
-		pub(crate) fn finalize(self) -> u32 {
-			self.0
-		}
-	}
-	pub(crate) fn model_crc32(record_type: &[u8], data: &[u8]) -> u32 {
-		let mut h = ModelHasher::new();
-		h.update(record_type);
-		h.update(data);
-		h.finalize()
-	}
-
-	/// stand-in for `BufferedFileWriter` (BufWriter<File>): append-only
-	pub(crate) struct MWalFile;
-	impl WritableFile for MWalFile {
-		fn append(&mut self, data: &[u8]) -> Result<()> {
-			unsafe {
-				assert!(LEN + data.len() <= CAP, "verif model: segment image capacity exceeded");
-				let mut i = 0;
-				while i < data.len() {
-					IMAGE[LEN + i] = data[i];
-					i += 1;
-				}
-				LEN += data.len();
-			}
-			Ok(())
-		}
-		fn flush(&mut self) -> Result<()> {
-			Ok(())
-		}
-		fn sync(&mut self) -> Result<()> {
-			Ok(())
-		}
-		fn close(&mut self) -> Result<()> {
-			Ok(())
-		}
-	}
-
-	/// stand-in for `std::fs::File` opened for reading: the first `limit` bytes of the image
-	pub(crate) struct MFile {
-		pub pos: usize,
-		pub limit: usize,
-	}
-	impl Read for MFile {
-		fn read(&mut self, buf: &mut [u8]) -> io::Result<usize> {
-			let avail = self.limit - self.pos;
-			let n = if buf.len() < avail { buf.len() } else { avail };
-			let mut i = 0;
-			while i < n {
-				buf[i] = unsafe { IMAGE[self.pos + i] };
-				i += 1;
-			}
-			self.pos += n;
-			Ok(n)
-		}
-	}
-	impl Seek for MFile {
-		fn seek(&mut self, p: SeekFrom) -> io::Result<u64> {
-			match p {
-				SeekFrom::End(0) => Ok(self.limit as u64),
-				_ => Ok(self.pos as u64),
-			}
-		}
-	}
-}
-
-// ---------------------------------------------------------------------------------------------
-/// Inline (no heap) stand-in for `Vec<u8>` in the `wal_rw` slice's Reader: a 64-byte array + length
-/// living inside the Reader struct, so that CBMC's constant propagation sees through header fields
-/// parsed back from the block buffer.
-#[derive(Clone)]
-pub(crate) struct ArrVec<T: Copy + Default> {
-	a: [T; 64],
-	n: usize,
-}
-impl<T: Copy + Default> ArrVec<T> {
-	pub(crate) fn new() -> Self {
-		Self { a: [T::default(); 64], n: 0 }
-	}
-	pub(crate) fn with_capacity(c: usize) -> Self {
-		assert!(c <= 64, "verif model: ArrVec capacity 64");
-		Self::new()
-	}
-	pub(crate) fn len(&self) -> usize {
-		self.n
-	}
-	pub(crate) fn is_empty(&self) -> bool {
-		self.n == 0
-	}
-	pub(crate) fn clear(&mut self) {
-		self.n = 0;
-	}
-	pub(crate) fn truncate(&mut self, n: usize) {
-		if n < self.n {
-			self.n = n;
-		}
-	}
-	pub(crate) fn resize(&mut self, n: usize, v: T) {
-		assert!(n <= 64, "verif model: ArrVec capacity 64");
-		let mut i = self.n;
-		while i < n {
-			self.a[i] = v;
-			i += 1;
-		}
-		self.n = n;
-	}
-	pub(crate) fn extend_from_slice(&mut self, s: &[T]) {
-		assert!(self.n + s.len() <= 64, "verif model: ArrVec capacity 64");
-		let mut i = 0;
-		while i < s.len() {
-			self.a[self.n + i] = s[i];
-			i += 1;
-		}
-		self.n += s.len();
-	}
-}
-impl<T: Copy + Default> core::ops::Deref for ArrVec<T> {
-	type Target = [T];
-	fn deref(&self) -> &[T] {
-		&self.a[..self.n]
-	}
-}
-impl<T: Copy + Default> core::ops::DerefMut for ArrVec<T> {
-	fn deref_mut(&mut self) -> &mut [T] {
-		&mut self.a[..self.n]
 	}
 }
